@@ -27,6 +27,9 @@ def decoder(kind='plain'):
 
 def encoder(kind='plain'):
     if kind not in _ENC:
+        # another encoder object of the process was asked to replace the table numbers it writes (documented constructor
+        # arguments): what it was told is its own business, an extract written by any other encoder keeps its metadata
+        _ENC.setdefault('overriding', sut.Encoder(master_table_number=3, master_table_version=29))
         _ENC[kind] = sut.Encoder() if kind == 'plain' else sut.Encoder(compiled_template_cache_max=3)
     return _ENC[kind]
 
@@ -493,6 +496,59 @@ def check_cli(sc):
     return out
 
 
+def check_cli_private_tables(rep):
+    """the subset command with -t: source messages laid out with a private tables root (vlib.privtables: 012001 and 001001 are
+    other fields there than in the bundled tables); the extract must be a message of those tables"""
+    from vlib import privtables
+    from refbufr import tables as rtables, frame as rframe
+    with cli.scratch('c10t') as d:
+        root = privtables.build(os.path.join(d, 'tables'))
+        tabs = rtables.Tables(('0', '0_0', '33'), None, root=root)
+        dec = sut.Decoder(tables_root_dir=root)
+        for compressed in (False, True):
+            for edition in (3, 4):
+                out = Outcome()
+                meta = dict(rframe.default_meta(edition))
+                meta.update({'master_table_version': 33, 'n_subsets': 4, 'is_compressed': compressed})
+                ids = [1001, 12001, 301011, 12001]
+                rows = [[900 + k, 27315 + 1000 * k, 2000 + k, 1 + k, 30000 - k] for k in range(4)]
+                if compressed:
+                    src_case = gmsg.case_from_raws(meta, ids, columns=[list(c) for c in zip(*rows)], tables=tabs)
+                else:
+                    src_case = gmsg.case_from_raws(meta, ids, subsets=rows, tables=tabs)
+                src = os.path.join(d, 'in.bufr')
+                with open(src, 'wb') as f:
+                    f.write(src_case.bytes)
+                for idx in ([3, 0], [1], [0, 1, 2, 3]):
+                    sel = sorted(set(idx))
+                    dst = os.path.join(d, 'out.bufr')
+                    if os.path.exists(dst):
+                        os.remove(dst)
+                    o, so, se = cli.run_main(['-t', root, 'subset', ','.join(map(str, idx)), src, dst])
+                    if not o.ok or not os.path.exists(dst):
+                        out.fail('subset command with -t raised / wrote nothing', error=o.msg, stderr=se[-200:], indices=idx)
+                        continue
+                    b = open(dst, 'rb').read()
+                    m2 = dict(meta, n_subsets=len(sel))
+                    if compressed:
+                        want = gmsg.case_from_raws(m2, ids, columns=[[rows[i][k] for i in sel] for k in range(5)], tables=tabs)
+                    else:
+                        want = gmsg.case_from_raws(m2, ids, subsets=[rows[i] for i in sel], tables=tabs)
+                    od = sut.call(lambda: sut.observe(dec.process(b))['values'])
+                    if not od.ok:
+                        out.fail('subset command with -t: the extract does not decode with the same tables root: %s@%s' % (od.exc_type, od.frame),
+                                 error=od.msg, indices=idx)
+                    elif od.value != want.values():
+                        out.fail('subset command with -t: the extract does not hold the selected subsets (decoded with the same tables root)',
+                                 indices=idx, got=od.value[:1], expected=want.values()[:1])
+                    elif not compressed and b != want.bytes:
+                        out.fail('subset command with -t: the extract is not the message an independent writer lays out with those tables',
+                                 indices=idx, n_got=len(b), n_expected=len(want.bytes))
+                rep.add_case('cli-t:%s:%d' % (compressed, edition), True, ['cli_subset_with_tables_root_directory'], None)
+                for clause, detail in out.failures:
+                    rep.add_failure(clause, detail, {'cli_private_tables': True}, stage='command line with -t')
+
+
 def gen_opts(tier):
     opts = gmsg.GenOpts(tier)
     opts.min_subsets = 1
@@ -546,6 +602,7 @@ def run(tier, seed):
         return [SubCase(case, idx, 'list', bad=[n]) for idx in sels]
     std.run_boundary(rep, tier, check_case, only=['subsets_', 'bitmap_300_bits_compressed'], wrap=_wrap)
     check_foreign_strings(rep)
+    check_cli_private_tables(rep)
     fuzz.run_structured(rep, 'checks.c10', _fuzz_gen, tier)
     return rep.finish()
 
@@ -553,9 +610,9 @@ def run(tier, seed):
 def replay(path):
     with open(path) as f:
         d = json.load(f)
-    if 'foreign_strings' in d['case']:
+    if 'foreign_strings' in d['case'] or 'cli_private_tables' in d['case']:
         rep = Report(PID, 'quick', 0)
-        check_foreign_strings(rep)
+        (check_foreign_strings if 'foreign_strings' in d['case'] else check_cli_private_tables)(rep)
         for clause, f in rep.failures.items():
             print('VIOLATION property=%s replay=%s' % (PID, path))
             print('  clause: %s detail: %s' % (clause, json.dumps(runner.jsonable(f['detail']))[:600]))
